@@ -1128,7 +1128,10 @@ loop:
 			}
 			break loop
 		case '`':
-			if p.quote != subCmdBckquo {
+			// Inside a backquoted command substitution an unescaped backquote
+			// ends the word (and the substitution), whatever nested state
+			// we are in, such as a case clause; elsewhere it continues the word.
+			if p.openBquotes == 0 {
 				tok = _Lit
 			}
 			break loop
